@@ -36,7 +36,7 @@ class Prop(common.PropertyCheck):
                    'bins': rng.choice(['count', 'edges', 'mixed', 'sample_linear', 'sample_log', 'sample_logicle', 'count2']),
                    'f': rng.choice(['0', '1', 'k/n', 'rand', 'rand', 'default']),
                    'sigma': rng.choice(['scalar', 'scalar', 'pair', 'small']), 'seed': rng.randrange(1 << 30)}
-        for what in ('f<0', 'f>1', 'one_channel', 'three_channels', 'one_event'):
+        for what in ('f<0', 'f>1', 'f<0 tiny', 'f>1 tiny', 'f<0 all outside', 'one_channel', 'three_channels', 'one_event'):
             yield {'k': 'bad', 'what': what}
 
     def make(self, case):
@@ -119,6 +119,12 @@ class Prop(common.PropertyCheck):
                     FlowCal.gate.density2d(a, [0, 1], bins=5, gate_fraction=-0.01)
                 elif w == 'f>1':
                     FlowCal.gate.density2d(a, [0, 1], bins=5, gate_fraction=1.0001)
+                elif w == 'f<0 tiny':
+                    FlowCal.gate.density2d(a, [0, 1], bins=5, gate_fraction=-1e-9)
+                elif w == 'f>1 tiny':
+                    FlowCal.gate.density2d(a, [0, 1], bins=5, gate_fraction=float(np.nextafter(1.0, 2.0)))
+                elif w == 'f<0 all outside':
+                    FlowCal.gate.density2d(a, [0, 1], bins=[np.linspace(200, 300, 4), np.linspace(200, 300, 4)], gate_fraction=-0.5)
                 elif w == 'one_channel':
                     FlowCal.gate.density2d(a, [0], bins=5)
                 elif w == 'three_channels':
